@@ -22,7 +22,7 @@ func (c *c29CountingWriter) Write(p []byte) (int, error) {
 // the underlying output exactly once, ahead of the lines written after the gate opened. Drives the real GatedWriter.
 func TestVerifReplayC29GatedWriter(t *testing.T) {
 	confirmed := false
-	for round := 0; round < 50 && !confirmed; round++ {
+	for round := 0; round < 400 && !confirmed; round++ {
 		out := &c29CountingWriter{}
 		w := &GatedWriter{Writer: out}
 		const writers, each = 8, 400
